@@ -10,7 +10,7 @@ PKGS="./cache/... ./client/... ./database/... ./mapper/... ./model/... ./ovsdb/.
 cd "$WT" || exit 3
 prev=$(git status --porcelain | grep 'zz_seeded_demo_test.go' | awk '{print $2}' | head -1)
 git checkout -q -- . && git clean -fdq
-[ "$(git rev-parse HEAD)" = "$(git -C /repo rev-parse HEAD)" ] || { echo "worktree not at /repo HEAD"; exit 3; }
+git checkout -q --detach "$(git -C /repo rev-parse HEAD)" || { echo "cannot move worktree to /repo HEAD"; exit 3; }
 demo=$(ls "$OUT"/*_test.go 2>/dev/null | head -1)
 [ -n "$demo" ] || { echo "no demo"; exit 3; }
 pkgdir=$(jq -r '.demo_package // .demo_dir // empty' "$OUT/meta.json" 2>/dev/null)
@@ -22,7 +22,7 @@ fi
 echo "demo=$demo pkgdir=$pkgdir"
 cp "$demo" "$pkgdir/zz_seeded_demo_test.go"
 echo "== demo without the change (must pass)"
-go test -vet=off -count=1 -run 'Seeded' "./$pkgdir" 2>&1 | tail -3
+go test -tags verif -vet=off -count=1 -run Seeded "./$pkgdir" 2>&1 | tail -3
 r1=${PIPESTATUS[0]}
 git apply "$OUT/patch.diff" || { echo "patch does not apply"; exit 3; }
 echo "== build + existing tests with the change (must pass)"
@@ -31,7 +31,7 @@ go build $PKGS ./modelgen/... && go test -vet=off -count=1 $PKGS 2>&1 | grep -v 
 r2=${PIPESTATUS[0]}
 cp "$demo" "$pkgdir/zz_seeded_demo_test.go"
 echo "== demo with the change (must fail)"
-go test -vet=off -count=1 -run 'Seeded' "./$pkgdir" 2>&1 | tail -6
+go test -tags verif -vet=off -count=1 -run Seeded "./$pkgdir" 2>&1 | tail -6
 r3=${PIPESTATUS[0]}
 git checkout -q -- . && git clean -fdq
 echo "RESULT $ID demo_without=$r1 suite_with=$r2 demo_with=$r3 (want 0 0 nonzero)"
